@@ -21,6 +21,7 @@ RULE = ('Every library function except datetimeNow/datetimeToday/mathRandom/syst
         'Oracle: same outcome kind (value / failed call / error class), results equal by numeric value (bool distinct from number), '
         'post-call arguments equal, same aliasing of the result to the arguments. Non-trivial: the call succeeded in some spelling and an '
         'argument contained an integral number; distinct by content hash. Classes report per-function ok/failed counts.')
+RULE += " Also: dataAggregate category columns mixing 1, '1', '1.0'; eleven or more values just below 1e15 averaged; datetimeNew with time components of magnitude 1e3..1e12 that cancel each other; large odd millisecond offsets. Results are compared exactly below 2**53 (1e-12 relative beyond it)."
 ASSUMPTIONS = [
     'integer exponents of ** are capped at 64 (int ** int with huge exponents does not terminate; outside every listed property)',
     'callbacks are host functions; the clock, random and fetch functions are excluded as the property states',
